@@ -22,6 +22,14 @@ CHECKS = {
              "edge, the reflexive-transitive outlives closure of declared and implied bounds, and the edge arrays the four managed backends emit must contain it.",
         note="Trusted: the 40-line reference model; the tolerant extractors for .mjs/.g.dart/.kt/_ext.cpp (anything uninterpretable is UNDECIDED = exit 2). "
              "Dart/Kotlin/Python output is parsed, not executed (no toolchains). Returned slices/strings (copied by some backends) are judged in-process only."),
+    "C05": dict(
+        category="model_checking", design="§2 C05",
+        technique="exhaustive enumeration of the bridge type grammar to depth 3 in 8 positions (+ pairs, self forms, lifetime families); three-valued documentation-derived reference gate stepped against the real TypeContext::from_syn in-process",
+        text="Every type expression of the grammar to constructor depth 3 is placed in every position (parameter first/last/sole, return, struct field, out-struct field, "
+             "callback parameter/return), plus every documented parameter x return pair, every self form, DiplomatWrite placements, elided/named return lifetimes and "
+             "every declared bound set for signatures with def-site bounds; the real lowering code must accept what the book documents and reject what the ten stated rules "
+             "forbid, and every rejection must carry the focus type/method as its context. Profile-dependent shapes go through the real binary for all 7 backends.",
+        note="Trusted: the reference gate (lib/vlib/gram.py spec()), written from book/src/*.md and the statement; shapes neither pins down are UNSPECIFIED, executed, counted, never judged."),
     "C12": dict(
         category="model_checking", design="§2 C12",
         technique="explicit-state model checking (stateright) of the real DiplomatWrite under every pattern of grow() answers, against a (content, failed, cap) reference model",
@@ -83,6 +91,14 @@ def main():
 
 
 CHECKS_NA = {}
+
+CHECKS["C17"] = dict(
+    category="model_checking", design="§2 C17",
+    technique="exhaustive enumeration of the configuration lattice (subsets of 3 sources x scoping x spelling x backend) through the real diplomat-tool binary against a reference precedence function",
+    text="For each setting every subset of {config.toml, --config, #[diplomat::config]} slots (shared / scoped to this backend / scoped to another backend) is given distinct "
+         "values, in every documented spelling (snake/kebab file keys, quoted/bare attribute values), for every backend that observes the setting; the effective value is read back "
+         "from the generated output only (package dirs, Native.load, NB_MODULE, ABI shape, lowering verdicts) and must equal the reference precedence function.",
+    note="Trusted: the reference precedence function (attr > cli > file, this-language scoped key before shared) and the output observables. Undocumented spellings are recorded, not judged.")
 
 if __name__ == "__main__":
     main()
